@@ -22,7 +22,7 @@ TMO = 420            # one ego process (the machine is shared and often saturate
 # ---------------------------------------------------------------- projection: tokens -> text
 SYM_VAL = {"SL2": "//", "BC": "/*", "CB": "*/", "DQ": '"', "BS": "\\", "TAB": "\t"}
 SYM_DQ = {"SL2": "//", "BC": "/*", "CB": "*/", "DQ": '\\"', "BS": "\\\\", "TAB": "\\t"}
-TAKEN = {"std": "SOW", "wide": "SOWLKTA", "one": "", "spacey": "SOW"}
+TAKEN = {"std": "SOWF", "wide": "SOWFLKTA", "one": "", "spacey": "SOWF"}
 INDENT = {"std": "\t", "wide": "  ", "one": "\t", "spacey": "    "}
 ORDER = {"bc": 0, "lc": 1, "ol": 2, "ob": 3, "on": 4}
 
@@ -104,13 +104,13 @@ def render(toks, lay, cm, uid):
         text = tok_text(t)
         if t["b"] == "T" and not brk:
             render_it = False
-        if t["b"] == "S" and t["s"] == ";" and brk:
+        if t["b"] in ("S", "F") and t["s"] == ";" and brk:
             render_it = False
         if t["q"] == "" and t["s"] in ("}", ")", "]") and stack:
             stack.pop()
         if render_it:
             glue = lay != "spacey" and prev is not None and prev != "c" and (prev["g"] in ("r", "b") or t["g"] in ("l", "b"))
-            if t["b"] == "S" and t["s"] == ";":
+            if t["b"] in ("S", "F") and t["s"] == ";":
                 glue = True
             put(text, glue)
             prev = t
@@ -377,7 +377,7 @@ def unit_record(f, u):
             "orig": {"out": o["out"], "status": o["status"]},
             "fmt": {"ok": bool(f.fmt_ok), "msg": f.fmt_msg[:300]},
             "fmtd": {"out": fo["out"], "status": fo["status"]},
-            "idem": bool(f.idem) if f.fmt_ok else True,
+            "idem": bool(f.idem) if f.fmt_ok else True, "lines": False,
             "cin": cin, "cout": cout}
 
 
@@ -560,7 +560,8 @@ def corpus_stage(chk, sd, ego, env, rng, thorough):
         recs.append({"id": it["rel"], "base": "", "kind": "corpus",
                      "key": {"pc": "", "cc": "", "lay": "", "mode": "", "shape": it["mode"]},
                      "exp": o, "orig": o, "fmt": {"ok": it["fmt_ok"], "msg": it["fmt_msg"][:300]}, "fmtd": f,
-                     "idem": bool(it.get("idem", True)), "cin": scan_comments(it["src"]),
+                     "idem": bool(it.get("idem", True)), "lines": "runtime.Frames" in it["src"],
+                     "cin": scan_comments(it["src"]),
                      "cout": scan_comments(it["ftext"]) if it["fmt_ok"] else [],
                      "_src": it["src"], "_fmt": it["ftext"]})
     chk.cov["corpus_skipped_unstable_or_timeout"] = skipped
